@@ -28,7 +28,9 @@ Texts == <<
   <<A, LB, Star, RB, Dot, Id(<<107>>)>>,
   <<Json(<<96,123,34,107,34,58,91,50,44,49,93,125,96>>), Dot, Id(<<107>>)>>,
   Fn(<<115,111,114,116>>, <<Json(<<96,91,51,44,49,44,50,93,96>>)>>),
-  <<A, Dot>> >>
+  <<A, Dot>>,
+  Fn(<<115,111,114,116,95,98,121>>, <<Id(<<98,97,100>>), Comma, AmpT, Id(<<107>>)>>),          \* fails on the last of 40 elements
+  Fn(<<115,111,114,116,95,98,121>>, <<A, Comma, AmpT, Id(<<107>>)>>) \o <<LB, Star, RB, Dot, Id(<<118>>)>> >>
 Docs == PoolApi
 
 C(op, t, d) == [op |-> op, t |-> t, d |-> d]
@@ -40,6 +42,8 @@ CallSets == <<
   << <<C("exprsearch", 4, 1), C("exprsearch", 7, 1)>>, <<C("exprsearch", 7, 1), C("exprsearch", 4, 2)>> >>,
   << <<C("exprsearch", 5, 1), C("exprsearch", 5, 2)>>, <<C("exprsearch", 5, 2), C("exprsearch", 5, 1)>> >>,
   << <<C("compile", 9, 0), C("search", 9, 1)>>, <<C("exprsearch", 2, 1), C("compile", 2, 0)>> >>,
+  \* a failing call first, then the same function on large arrays from both goroutines
+  << <<C("exprsearch", 10, 4), C("exprsearch", 3, 4)>>, <<C("exprsearch", 11, 4), C("exprsearch", 3, 4)>> >>,
   << <<C("exprsearch", 2, 1), C("exprsearch", 3, 2)>>, <<C("exprsearch", 6, 2), C("exprsearch", 1, 3)>>,
      <<C("search", 8, 1), C("exprsearch", 4, 1)>> >> >>
 
